@@ -244,10 +244,12 @@ fn main() {
             let mut a = match Archive::open(t[1]) { Ok(a) => a, Err(_) => return "OPEN-ERR".to_string() };
             let reads: Vec<String> = t[2].split(',').map(|n| {
                 let name = String::from_utf8(unhex(n)).unwrap();
-                let r = match a.read_file(&name) {
-                    Ok(d) => format!("OK:{}", hex(&d)),
-                    Err(wow_mpq::Error::FileNotFound(_)) => "NOTFOUND".to_string(),
-                    Err(_) => "ERR".to_string(),
+                // a decoder that panics on one file (a C05 matter) must not hide the answers for the others
+                let r = match std::panic::catch_unwind(std::panic::AssertUnwindSafe(|| a.read_file(&name))) {
+                    Ok(Ok(d)) => format!("OK:{}", hex(&d)),
+                    Ok(Err(wow_mpq::Error::FileNotFound(_))) => "NOTFOUND".to_string(),
+                    Ok(Err(_)) => "ERR".to_string(),
+                    Err(_) => "PANIC".to_string(),
                 };
                 format!("{n}>{r}")
             }).collect();
